@@ -377,10 +377,241 @@ class SInt:
 # execution context / path exploration
 
 
+def _num(e):
+    if z3.is_rational_value(e):
+        return e.as_fraction()
+    if z3.is_int_value(e):
+        return Fraction(e.as_long())
+    return None
+
+
+class SignAnalysis:
+    """cheap, sound sign inference on terms (interval-sign abstract interpretation):
+    '+' (>0), '0+' (>=0), '-' (<0), '0-' (<=0), '0' (=0), None (unknown).  Squares t*t are >= 0,
+    ex(.) > 0, sqrt(.) >= 0, sums/products/quotients combine signs; symbols take the signs implied
+    by simple bounds found among the path constraints."""
+
+    def __init__(self):
+        self.known = {}  # ast id of a constant -> sign
+        self.memo = {}
+        self.keep = []
+
+    def learn(self, c):
+        """record x > 0 / x >= 0 / x >= c / ... assumptions on plain symbols"""
+        if not z3.is_app(c):
+            return
+        k = c.decl().kind()
+        if k == z3.Z3_OP_AND:
+            for ch in c.children():
+                self.learn(ch)
+            return
+        if k not in (z3.Z3_OP_GT, z3.Z3_OP_GE, z3.Z3_OP_LT, z3.Z3_OP_LE) or c.num_args() != 2:
+            return
+        a, b = c.arg(0), c.arg(1)
+        if _num(a) is not None and _num(b) is None:
+            a, b = b, a
+            k = {z3.Z3_OP_GT: z3.Z3_OP_LT, z3.Z3_OP_GE: z3.Z3_OP_LE, z3.Z3_OP_LT: z3.Z3_OP_GT, z3.Z3_OP_LE: z3.Z3_OP_GE}[k]
+        v = _num(b)
+        if v is None or not (z3.is_const(a) and a.decl().kind() == z3.Z3_OP_UNINTERPRETED):
+            return
+        sg = None
+        if k == z3.Z3_OP_GT and v >= 0:
+            sg = "+"
+        elif k == z3.Z3_OP_GE and v > 0:
+            sg = "+"
+        elif k == z3.Z3_OP_GE and v == 0:
+            sg = "0+"
+        elif k == z3.Z3_OP_LT and v <= 0:
+            sg = "-"
+        elif k == z3.Z3_OP_LE and v < 0:
+            sg = "-"
+        elif k == z3.Z3_OP_LE and v == 0:
+            sg = "0-"
+        if sg:
+            old = self.known.get(a.get_id())
+            if old is None or (old in ("0+", "0-") and sg in ("+", "-")):
+                self.known[a.get_id()] = sg
+                self.keep.append(a)
+                self.memo = {}
+
+    @staticmethod
+    def _neg(s):
+        return {"+": "-", "-": "+", "0+": "0-", "0-": "0+", "0": "0", None: None}[s]
+
+    @staticmethod
+    def _add(a, b):
+        if a == "0":
+            return b
+        if b == "0":
+            return a
+        if a is None or b is None:
+            return None
+        pos = {"+", "0+"}
+        neg = {"-", "0-"}
+        if a in pos and b in pos:
+            return "+" if "+" in (a, b) else "0+"
+        if a in neg and b in neg:
+            return "-" if "-" in (a, b) else "0-"
+        return None
+
+    @staticmethod
+    def _mul(a, b):
+        if a == "0" or b == "0":
+            return "0"
+        if a is None or b is None:
+            return None
+        strict = a in ("+", "-") and b in ("+", "-")
+        negative = (a in ("-", "0-")) != (b in ("-", "0-"))
+        if strict:
+            return "-" if negative else "+"
+        return "0-" if negative else "0+"
+
+    def sign(self, e):
+        k = e.get_id()
+        hit = self.memo.get(k)
+        if hit is not None:
+            return hit[1]
+        r = self._sign(e)
+        self.memo[k] = (e, r)  # keep the term alive: z3 re-uses the ids of dead ASTs
+        return r
+
+    def _sign(self, e):
+        v = _num(e)
+        if v is not None:
+            return "+" if v > 0 else ("-" if v < 0 else "0")
+        if not z3.is_app(e):
+            return None
+        kind = e.decl().kind()
+        ch = e.children()
+        if kind == z3.Z3_OP_UNINTERPRETED:
+            if not ch:
+                return self.known.get(e.get_id())
+            nm = e.decl().name()
+            if nm == "ex":
+                return "+"
+            if nm == "sqrt":
+                return "0+"
+            return None
+        if kind == z3.Z3_OP_ADD:
+            r = "0"
+            for c in ch:
+                r = self._add(r, self.sign(c))
+                if r is None:
+                    return None
+            return r
+        if kind == z3.Z3_OP_SUB:
+            r = self.sign(ch[0])
+            for c in ch[1:]:
+                r = self._add(r, self._neg(self.sign(c)))
+                if r is None:
+                    return None
+            return r
+        if kind == z3.Z3_OP_UMINUS:
+            return self._neg(self.sign(ch[0]))
+        if kind in (z3.Z3_OP_MUL, z3.Z3_OP_DIV):
+            # flatten the product/quotient tree; identical factors pair up (squares are >= 0)
+            num, den, flip = [], [], False
+            stack = [(e, False)]
+            while stack:
+                t, inden = stack.pop()
+                tk = t.decl().kind() if z3.is_app(t) else None
+                if tk == z3.Z3_OP_MUL:
+                    for c in t.children():
+                        stack.append((c, inden))
+                elif tk == z3.Z3_OP_DIV:
+                    stack.append((t.arg(0), inden))
+                    stack.append((t.arg(1), not inden))
+                elif tk == z3.Z3_OP_UMINUS:
+                    flip = not flip
+                    stack.append((t.arg(0), inden))
+                else:
+                    (den if inden else num).append(t)
+            cnt = {}
+            for c in num + den:
+                cnt.setdefault(c.get_id(), [c, 0])[1] += 1
+            for c in den:
+                if self.sign(c) not in ("+", "-"):
+                    return None
+            r = "+"
+            for c, n in cnt.values():
+                sc = self.sign(c)
+                if n % 2 == 0:
+                    sc = "+" if sc in ("+", "-") else ("0" if sc == "0" else "0+")
+                r = self._mul(r, sc)
+                if r is None:
+                    return None
+            return self._neg(r) if flip else r
+        if kind == z3.Z3_OP_ITE:
+            a, b = self.sign(ch[1]), self.sign(ch[2])
+            if a == b:
+                return a
+            if a is None or b is None:
+                return None
+            if {a, b} <= {"+", "0+", "0"}:
+                return "0+"
+            if {a, b} <= {"-", "0-", "0"}:
+                return "0-"
+            return None
+        if kind == z3.Z3_OP_TO_REAL:
+            return self.sign(ch[0])
+        return None
+
+    def decide(self, c):
+        """True / False / None for a boolean condition"""
+        if z3.is_true(c):
+            return True
+        if z3.is_false(c):
+            return False
+        if not z3.is_app(c):
+            return None
+        k = c.decl().kind()
+        ch = c.children()
+        if k == z3.Z3_OP_NOT:
+            r = self.decide(ch[0])
+            return None if r is None else (not r)
+        if k == z3.Z3_OP_OR:
+            rs = [self.decide(x) for x in ch]
+            if any(r is True for r in rs):
+                return True
+            if all(r is False for r in rs):
+                return False
+            return None
+        if k == z3.Z3_OP_AND:
+            rs = [self.decide(x) for x in ch]
+            if any(r is False for r in rs):
+                return False
+            if all(r is True for r in rs):
+                return True
+            return None
+        if k in (z3.Z3_OP_EQ, z3.Z3_OP_DISTINCT, z3.Z3_OP_GT, z3.Z3_OP_GE, z3.Z3_OP_LT, z3.Z3_OP_LE) and len(ch) == 2 and ch[0].sort() == RS:
+            a, b = ch
+            if _num(b) is None or _num(b) != 0:
+                if _num(a) is not None and _num(a) == 0:
+                    a, b = b, a
+                    k = {z3.Z3_OP_GT: z3.Z3_OP_LT, z3.Z3_OP_GE: z3.Z3_OP_LE, z3.Z3_OP_LT: z3.Z3_OP_GT, z3.Z3_OP_LE: z3.Z3_OP_GE}.get(k, k)
+                else:
+                    s = self.sign(a - b)
+                    a = None
+            if a is not None:
+                s = self.sign(a)
+            if s is None:
+                return None
+            table = {
+                z3.Z3_OP_EQ: {"+": False, "-": False, "0": True},
+                z3.Z3_OP_DISTINCT: {"+": True, "-": True, "0": False},
+                z3.Z3_OP_GT: {"+": True, "-": False, "0": False, "0-": False},
+                z3.Z3_OP_GE: {"+": True, "0+": True, "0": True, "-": False},
+                z3.Z3_OP_LT: {"-": True, "+": False, "0": False, "0+": False},
+                z3.Z3_OP_LE: {"-": True, "0-": True, "0": True, "+": False},
+            }
+            return table[k].get(s)
+        return None
+
+
 class Ctx:
     cur = None
 
-    def __init__(self, pre=(), decisions=(), feas_timeout=3000, check_feas=True):
+    def __init__(self, pre=(), decisions=(), feas_timeout=1500, check_feas=True):
         self.pre = list(pre)
         self.decisions = list(decisions)
         self.taken = []  # (cond, value)
@@ -391,6 +622,10 @@ class Ctx:
         self.feas_timeout = feas_timeout
         self.queries = 0
         self.notes = {}
+        self.signs = SignAnalysis()
+        for c in self.pre:
+            self.signs.learn(c)
+        self.memo = {}
 
     def _solver(self):
         if self.solver is None:
@@ -404,6 +639,20 @@ class Ctx:
         """True unless the solver proves pre & pc & cond unsat"""
         if not self.check_feas:
             return True
+        # fast path: linear abstraction with sign propagation (unsat there => infeasible)
+        try:
+            from .normal import abstract_nl
+
+            ab = abstract_nl([cond], context=self.pre + self.pc)
+            sa = z3.Solver()
+            sa.set("timeout", 1500)
+            sa.add(ab)
+            self.queries += 1
+            ra = sa.check()
+            if ra == z3.unsat:
+                return False
+        except Exception:
+            pass
         s = self._solver()
         s.push()
         s.add(cond)
@@ -412,17 +661,39 @@ class Ctx:
         s.pop()
         return r != z3.unsat
 
+    @staticmethod
+    def _nonlinear(c):
+        st, seen = [c], set()
+        while st:
+            e = st.pop()
+            if e.get_id() in seen:
+                continue
+            seen.add(e.get_id())
+            if z3.is_app(e):
+                k = e.decl().kind()
+                if k in (z3.Z3_OP_MUL, z3.Z3_OP_DIV, z3.Z3_OP_UNINTERPRETED) and e.num_args() > 0:
+                    return True
+                st.extend(e.children())
+        return False
+
     def _commit(self, c):
+        self.signs.learn(c)
         self.pc.append(c)
         if self.solver is not None:
             self.solver.add(c)
 
     def decide(self, cond):
+        quick = self.signs.decide(cond)
+        if quick is not None:
+            return quick
         cond = z3.simplify(cond)
         if z3.is_true(cond):
             return True
         if z3.is_false(cond):
             return False
+        quick = self.signs.decide(cond)
+        if quick is not None:
+            return quick
         i = len(self.taken)
         if i < len(self.decisions):
             v = self.decisions[i]
@@ -444,6 +715,7 @@ class Ctx:
 
     def assume(self, cond):
         """restrict the current path (recorded in pc); abort if infeasible"""
+        self.signs.learn(cond)
         cond = z3.simplify(cond)
         if z3.is_true(cond):
             return
@@ -470,7 +742,7 @@ class Path:
         self.notes = notes
 
 
-def explore(fn, pre=(), max_paths=512, feas_timeout=3000, catch=(Exception,)):
+def explore(fn, pre=(), max_paths=512, feas_timeout=1500, catch=(Exception,)):
     """Depth-first exploration of all feasible decision sequences of fn()."""
     stack = [[]]
     out = []
